@@ -1008,6 +1008,28 @@ fn st_level(store: &Store, st: &mut Sess, batch: &mut Batch<'_>, depth: usize) -
 		st_tick(0);
 		let op = st.pick_op(depth);
 		match op {
+			Op::Put if !st.growth && st.prng.chance(1, 6) => {
+				// write the COMMITTED bytes of a key again after this batch changed or deleted it: values are otherwise
+				// unique, so a store that compares a put with what is on disk would never be asked to "change nothing"
+				let s = st.pick_space();
+				let view = st.model.view_in(s);
+				let cands: Vec<(Vec<u8>, Vec<u8>)> = st.model.committed[s]
+					.iter()
+					.filter(|(k, v)| view.get(*k) != Some(*v))
+					.map(|(k, v)| (k.clone(), v.clone()))
+					.collect();
+				if cands.is_empty() {
+					continue;
+				}
+				let (k, bytes) = cands[st.prng.usize_below(cands.len())].clone();
+				st.batch_bytes += bytes.len() + k.len() + 16;
+				st.tr(format!("d{} put s{} {} len={} (the committed value again)", depth, s, short_hex(&k), bytes.len()));
+				st.stats.op("put_restoring_the_committed_value");
+				st.p_kinds.insert("put");
+				batch.put(SPACE_KEYS[s], &k, &bytes).map_err(|e| st.err("put", &e))?;
+				st.model.put(s, &k, bytes);
+				st.level_chains.last_mut().unwrap().insert(String::new());
+			}
 			Op::Put => {
 				let s = st.pick_space();
 				let k = st.pick_key();
